@@ -59,7 +59,8 @@ fn raw(name: &str, payload: Vec<u8>, allowed: &[u64]) -> Hostile {
 
 /// Raw (possibly malformed) encodings only make sense as the last thing in a packet
 fn is_raw(h: &Hostile) -> bool {
-    h.payload.starts_with(&[1, 1, 1, 1])
+    // (a frame without a length field swallows whatever follows it in the packet)
+    h.payload.starts_with(&[1, 1, 1, 1]) || h.name.ends_with("no-len")
 }
 
 fn stream_related(h: &Hostile) -> bool {
